@@ -5,6 +5,7 @@ PROPERTY = "C15"
 LEAN_MODULES = ["KafVerif.Props.C15"]
 OBLIGATIONS = [
     "KafVerif.C15.restore_build_view",
+    "KafVerif.C15.failover_preserves_view",
     "KafVerif.C15.cloneOld_violates",
 ]
 BUILDS = G.BUILDS
@@ -22,7 +23,7 @@ LEVEL_TEXT = ("Lean 4 theorems about the executable model: restoreGroupState(clo
               "random points and a monitor that compares the dump before the failover with the dump after the reload.")
 TECHNIQUE = "Lean 4 proof (round trip + invariant over reachable states) + Go/Lean differential correspondence + property monitor"
 
-PROFILE = G.profile(weights={"failover": 10, "failover_lazy": 3, "join": 8, "sync": 8, "hb": 8, "commit": 4, "fail": 0, "tick": 4, "meta": 1},
+PROFILE = G.profile(etcd_quick=10, etcd_thorough=60, weights={"failover": 10, "failover_lazy": 3, "join": 8, "sync": 8, "hb": 8, "commit": 4, "fail": 0, "tick": 4, "meta": 1},
                     timeouts=[10000, 20000, 30000, 40000, 60000], fail_kinds=[3, 4, 5])
 RULE = ("membership histories with a coordinator failover (fresh GroupCoordinator over the same store) at random points, "
         "generated from VERIF_SEED; non-trivial = a group reached Stable; distinct = distinct implementation traces")
